@@ -9,13 +9,21 @@ aligned one-to-one with the entries below the files/ directories, so what a
 file-level pass counts is what it removes. -/
 namespace Martian.Vdr
 
+/-- symbolic links (the entries with further logical names) are not below
+another entry of the files/ directories: the shape the exactness of the
+report depends on (see `report_undercounts_nested_link`) -/
+def LinksTop (disk : List DiskEnt) : Prop :=
+  ∀ d ∈ disk, d.alts ≠ [] → ∀ d' ∈ disk, isTmp d'.kind = false →
+    pathIsInside d.path d'.path = true → d' = d
+
 /-- two lists related position by position -/
 inductive All2 {α β : Type} (R : α → β → Prop) : List α → List β → Prop
   | nil : All2 R [] []
   | cons {a b l1 l2} : R a b → All2 R l1 l2 → All2 R (a :: l1) (b :: l2)
 
 /-- a cache entry describes a disk entry -/
-def Rel (e : Entry) (d : DiskEnt) : Prop := e.path = d.path ∧ e.size = d.size ∧ e.count = 1
+def Rel (e : Entry) (d : DiskEnt) : Prop :=
+  e.path = d.path ∧ e.size = d.size ∧ e.count = 1 ∧ e.names = d.path :: d.alts
 
 /-- the cache has exactly one entry, in order, per entry below a files/ directory -/
 def Aligned (es : List Entry) (disk : List DiskEnt) : Prop :=
@@ -80,7 +88,7 @@ theorem rel_sums {es : List Entry} {ds : List DiskEnt} (h : All2 Rel es ds) :
   induction h with
   | nil => simp [sumECount, sumESize, sumSize]
   | cons hab _ ih =>
-    obtain ⟨_, hs, hc⟩ := hab
+    obtain ⟨_, hs, hc, _⟩ := hab
     obtain ⟨i1, i2⟩ := ih
     simp only [sumECount, sumESize, sumSize, List.map_cons, List.sum_cons, List.length_cons] at *
     omega
@@ -107,6 +115,10 @@ theorem filter_comm_nonTmp (p : DiskEnt → Bool) (l : List DiskEnt) :
   intro x _
   exact Bool.and_comm _ _
 
+structure DiskWF (disk : List DiskEnt) : Prop where
+  sep : Sep disk
+  top : LinksTop disk
+
 /-- the invariant behind `report_exact` -/
 structure XInv (s0 s : St) : Prop where
   exact : Exact s
@@ -124,17 +136,27 @@ theorem XInv.setFinal {s0 s : St} (x : XInv s0 s) : XInv s0 { s with final := tr
 
 theorem cacheEntries_aligned (c : Cfg) (s : St) : Aligned (cacheEntries c s) s.disk := by
   unfold Aligned cacheEntries
-  exact forall2_map_self _ (fun d => ⟨rfl, rfl, rfl⟩) _
+  exact forall2_map_self _ (fun d => ⟨rfl, rfl, rfl, rfl⟩) _
 
-theorem cacheEntries_mono (c : Cfg) (s0 s : St) (ok : CfgOK c s0) (sub : ∀ d ∈ s.disk, d ∈ s0.disk) :
-    Mono (cacheEntries c s) := by
+theorem cacheEntries_mono (c : Cfg) (s0 s : St) (ok : CfgOK c s0) (top : LinksTop s0.disk)
+    (sub : ∀ d ∈ s.disk, d ∈ s0.disk) : Mono (cacheEntries c s) := by
   intro e he e' he' hin a ha
   unfold cacheEntries at he he'
   simp only [List.mem_map, List.mem_filter] at he he'
   obtain ⟨d, ⟨hd, _⟩, rfl⟩ := he
-  obtain ⟨d', ⟨hd', _⟩, rfl⟩ := he'
+  obtain ⟨d', ⟨hd', ht'⟩, rfl⟩ := he'
   simp only [List.mem_filter] at ha ⊢
-  exact ⟨ha.1, refs_mono (ok.cleanD d (sub d hd)) (ok.cleanD d' (sub d' hd')) (ok.cleanF a) hin ha.2⟩
+  refine ⟨ha.1, ?_⟩
+  by_cases hal : d.alts = []
+  · have h1 : refs c a d.path = true := by
+      have := ha.2
+      rw [hal] at this
+      exact this
+    exact anyOverlap_cons_mono _ _ _
+      (refs_mono (ok.cleanD d (sub d hd)) (ok.cleanD d' (sub d' hd')) (ok.cleanF a) hin h1)
+  · have := top d (sub d hd) hal d' (sub d' hd') (by simpa using ht') hin
+    rw [this]
+    exact ha.2
 
 theorem cacheMap_final (c : Cfg) (s : St) : (cacheMap c s).final = s.final := by
   unfold cacheMap
@@ -152,7 +174,8 @@ theorem cacheMap_report (c : Cfg) (s : St) : (cacheMap c s).report = s.report :=
   show (dropUnused (cacheEntries c s) (dropNoFiles c s)).report = s.report
   rw [f2.report, f1.report]
 
-theorem XInv.cacheMap {c : Cfg} {s0 s : St} (ok : CfgOK c s0) (x : XInv s0 s) : XInv s0 (cacheMap c s) := by
+theorem XInv.cacheMap {c : Cfg} {s0 s : St} (ok : CfgOK c s0) (top : LinksTop s0.disk) (x : XInv s0 s) :
+    XInv s0 (cacheMap c s) := by
   refine ⟨x.exact.ofEq (cacheMap_removed c s) (cacheMap_report c s), ?_, ?_⟩
   · intro d h; rw [cacheMap_disk] at h; exact x.sub d h
   · intro _ es he
@@ -160,12 +183,13 @@ theorem XInv.cacheMap {c : Cfg} {s0 s : St} (ok : CfgOK c s0) (x : XInv s0 s) : 
     rw [this] at he
     cases he
     rw [cacheMap_disk]
-    exact ⟨cacheEntries_aligned c s, cacheEntries_mono c s0 s ok x.sub⟩
+    exact ⟨cacheEntries_aligned c s, cacheEntries_mono c s0 s ok top x.sub⟩
 
-theorem XInv.normCache {c : Cfg} {s0 s : St} (ok : CfgOK c s0) (x : XInv s0 s) : XInv s0 (normCache c s) := by
+theorem XInv.normCache {c : Cfg} {s0 s : St} (ok : CfgOK c s0) (top : LinksTop s0.disk) (x : XInv s0 s) :
+    XInv s0 (normCache c s) := by
   unfold Martian.Vdr.normCache
   split
-  · exact x.cacheMap ok
+  · exact x.cacheMap ok top
   · rename_i es he
     refine ⟨x.exact, x.sub, ?_⟩
     intro hf es' he'
@@ -214,7 +238,7 @@ theorem XInv.cleanTmp {c : Cfg} {s0 s : St} (x : XInv s0 s) (upto : Nat) : XInv 
   | cons y r ih => exact ih (x.cleanPhase y)
 
 
-theorem XInv.killCore {s0 s : St} (sep : Sep s0.disk) (x : XInv s0 s) (es : List Entry)
+theorem XInv.killCore {s0 s : St} (wf : DiskWF s0.disk) (x : XInv s0 s) (es : List Entry)
     (hf : s.final = false) (he : s.cache = some es) : XInv s0 (killCore s es) := by
   obtain ⟨al, mo⟩ := x.al hf es he
   -- the two predicates agree on related pairs
@@ -256,7 +280,7 @@ theorem XInv.killCore {s0 s : St} (sep : Sep s0.disk) (x : XInv s0 s) (es : List
       obtain ⟨k, ⟨e', ⟨hes', _⟩, rfl⟩, hin⟩ := hany
       obtain ⟨d', hd', r⟩ := forall2_mem_left al e' hes'
       have hd'' := List.mem_filter.mp hd'
-      have := sep d (x.sub d hd) ht d' (x.sub d' hd''.1) (by simpa using hd''.2)
+      have := wf.sep d (x.sub d hd) ht d' (x.sub d' hd''.1) (by simpa using hd''.2)
       rw [← r.1, hin] at this
       cases this
   have hgone : s.disk.filter (fun d => ((es.filter (fun e => e.args.isEmpty)).map (·.path)).any (fun k => pathIsInside d.path k))
@@ -293,11 +317,11 @@ theorem normCache_final (c : Cfg) (s : St) : (normCache c s).final = s.final := 
   · exact cacheMap_final c s
   · rfl
 
-theorem XInv.vdrKillSome {c : Cfg} {s0 s : St} (ok : CfgOK c s0) (sep : Sep s0.disk) (x : XInv s0 s)
+theorem XInv.vdrKillSome {c : Cfg} {s0 s : St} (ok : CfgOK c s0) (wf : DiskWF s0.disk) (x : XInv s0 s)
     (hf : s.final = false) (done : Bool) : XInv s0 (vdrKillSome c s done) := by
   unfold Martian.Vdr.vdrKillSome
   dsimp only
-  have x1 := x.normCache ok
+  have x1 := x.normCache ok wf.top
   have hf1 : (Martian.Vdr.normCache c s).final = false := by rw [normCache_final]; exact hf
   obtain ⟨es, hes⟩ := normCache_cache c s
   generalize Martian.Vdr.normCache c s = s1 at *
@@ -307,26 +331,26 @@ theorem XInv.vdrKillSome {c : Cfg} {s0 s : St} (ok : CfgOK c s0) (sep : Sep s0.d
   · split
     · exact x1.setFinal
     · exact x1
-  · have x2 := x1.killCore sep es hf1 hes
+  · have x2 := x1.killCore wf es hf1 hes
     split
     · exact x2.setFinal
     · exact x2
 
-theorem XInv.vdrKill {c : Cfg} {s0 s : St} (ok : CfgOK c s0) (sep : Sep s0.disk) (x : XInv s0 s) :
+theorem XInv.vdrKill {c : Cfg} {s0 s : St} (ok : CfgOK c s0) (wf : DiskWF s0.disk) (x : XInv s0 s) :
     XInv s0 (vdrKill c s) := by
   unfold Martian.Vdr.vdrKill
   split
   · exact x
   · rename_i hf
     split
-    · exact x.vdrKillSome ok sep (by simpa using hf) true
+    · exact x.vdrKillSome ok wf (by simpa using hf) true
     · refine ⟨?_, fun d h => x.sub d (List.mem_filter.mp h).1, fun h => by cases h⟩
       obtain ⟨e1, e2⟩ := x.exact
       unfold Exact
       simp only [List.length_append, sumSize_append]
       omega
 
-theorem XInv.kill {c : Cfg} {s0 s : St} (ok : CfgOK c s0) (sep : Sep s0.disk) (x : XInv s0 s) :
+theorem XInv.kill {c : Cfg} {s0 s : St} (ok : CfgOK c s0) (wf : DiskWF s0.disk) (x : XInv s0 s) :
     XInv s0 (kill c s) := by
   unfold Martian.Vdr.kill
   split
@@ -353,31 +377,31 @@ theorem XInv.kill {c : Cfg} {s0 s : St} (ok : CfgOK c s0) (sep : Sep s0.disk) (x
     generalize removePostNodes s1 _ = s2 at *
     split
     · split
-      · exact x2.vdrKillSome ok sep hf2 true
-      · exact x2.vdrKill ok sep
+      · exact x2.vdrKillSome ok wf hf2 true
+      · exact x2.vdrKill ok wf
     · split
-      · exact x2.vdrKillSome ok sep hf2 false
+      · exact x2.vdrKillSome ok wf hf2 false
       · exact x2
 
-theorem XInv.step {c : Cfg} {s0 s : St} (ok : CfgOK c s0) (sep : Sep s0.disk) (x : XInv s0 s) (e : Ev) :
+theorem XInv.step {c : Cfg} {s0 s : St} (ok : CfgOK c s0) (wf : DiskWF s0.disk) (x : XInv s0 s) (e : Ev) :
     XInv s0 (step c s e) := by
   cases e with
   | nodeDone n => exact ⟨x.exact, x.sub, x.al⟩
   | removeEmpty => exact x.frame (foldRemove_frame (fun a => (c.namesOf a).isEmpty) s.dom s)
-  | cacheMap => exact x.cacheMap ok
+  | cacheMap => exact x.cacheMap ok wf.top
   | early upto =>
     show XInv s0 (if s.final then s else Martian.Vdr.cleanTmp c s (min upto 2))
     split
     · exact x
     · exact x.cleanTmp _
-  | kill => exact x.kill ok sep
+  | kill => exact x.kill ok wf
 
-theorem XInv.run {c : Cfg} {s0 s : St} (ok : CfgOK c s0) (sep : Sep s0.disk) (x : XInv s0 s) (evs : List Ev) :
+theorem XInv.run {c : Cfg} {s0 s : St} (ok : CfgOK c s0) (wf : DiskWF s0.disk) (x : XInv s0 s) (evs : List Ev) :
     XInv s0 (run c s evs) := by
   unfold Martian.Vdr.run
   induction evs generalizing s with
   | nil => exact x
-  | cons e r ih => exact ih (x.step ok sep e)
+  | cons e r ih => exact ih (x.step ok wf e)
 
 theorem XInv.init (s0 : St) (fr : Fresh s0) (h0 : s0.report.count = 0 ∧ s0.report.size = 0) : XInv s0 s0 := by
   refine ⟨?_, fun d h => h, ?_⟩
